@@ -73,6 +73,12 @@ func sideWorlds(run *lib.Run, hb *lib.Heartbeat) {
 				return lib.Close
 			case strings.HasPrefix(req.Target, "close"):
 				return lib.Close
+			case strings.HasPrefix(req.Target, "rej"):
+				// a rejection whose status sits on the edge of a status class
+				code := 403
+				fmt.Sscanf(req.Target, "rej%d", &code)
+				fmt.Fprintf(oc.C, "HTTP/1.1 %d Rejected\r\nContent-Length: 0\r\n\r\n", code)
+				return lib.Close
 			}
 			oc.Write([]byte("HTTP/1.1 200 OK\r\n\r\n"))
 			io.Copy(oc.C, io.LimitReader(oc.C, 5))
@@ -88,7 +94,7 @@ func sideWorlds(run *lib.Run, hb *lib.Heartbeat) {
 				wg.Add(1)
 				go func(i int) {
 					defer wg.Done()
-					kind := []string{"stall", "late", "close", "ok"}[i%4]
+					kind := []string{"stall", "late", "close", "ok", "rej300x", "rej301x", "rej399x", "rej400x", "stall", "late", "close", "ok", "rej499x", "rej500x", "rej599x", "rej403x"}[i%16]
 					st, err := lib.Dial(p.Addr)
 					if err != nil {
 						run.Inconclusive("dial")
@@ -109,6 +115,8 @@ func sideWorlds(run *lib.Run, hb *lib.Heartbeat) {
 						run.Count("side_connects_checked", 1)
 					case kind != "ok" && m.Status/100 == 5:
 						run.Count("side_connects_checked", 1)
+					case strings.HasPrefix(kind, "rej") && m.Status >= 300:
+						run.Count("side_connect_rejections_checked", 1)
 					default:
 						run.Violation("connect-upstream-status:"+kind, fmt.Sprintf("CONNECT through an upstream proxy that %ss answered %d", kind, m.Status), base, nil)
 					}
